@@ -148,8 +148,8 @@ def _join_shapes():
                 def real(vals, cls=cls, st=st, kinds=kinds, as_tuple=as_tuple):
                     o = r_bits(vals, 'self', cls, st)
                     items = [r_operand(vals, f'it{i}', k, o) for i, k in enumerate(kinds)]
-                    return [o, tuple(items) if as_tuple else iter(items)], {}
-                out.append(Shape(f'{cls}/{st}/' + ('+'.join(opname(k) for k in kinds) or 'empty') + ('/tuple' if as_tuple else '/iterator'), build, real))
+                    return [o, tuple(items) if as_tuple else items], {}
+                out.append(Shape(f'{cls}/{st}/' + ('+'.join(opname(k) for k in kinds) or 'empty') + ('/tuple' if as_tuple else '/list'), build, real))
     return out
 
 
